@@ -322,6 +322,16 @@ def run_check(cfg, tier, seed, only=None):
                 res.violate('proof', 'theorem %s depends on non-allow-listed axioms %s' % (n, extra))
             else:
                 res.discharged += 1
+    # thorough: independent re-check of the compiled files with coqchk
+    res.coqchk = None
+    if tier == 'thorough' and ok:
+        mods = ['RevmV.' + f[:-2].replace('/', '.') for f in cfg['props_files'] if f in compiled]
+        if mods:
+            rc, cout = sh(['coqchk', '-o', '-silent', '-Q', COQ, 'RevmV'] + mods, cwd=COQ, timeout=6000)
+            axioms = re.findall(r'^\s*([A-Za-z_][\w\.\']*)\s*$', cout.split('Axioms:')[1], re.M) if 'Axioms:' in cout else []
+            res.coqchk = {'rc': rc, 'axioms': [a for a in axioms if a not in ('', 'Constants', 'Inductives')][:50], 'tail': cout[-600:]}
+            if rc != 0 and rc != 124:
+                res.violate('proof', 'coqchk rejected the compiled files of %s' % pid, detail=cout[-3000:])
     hits = audit_sources()
     if hits:
         res.violate('audit', 'forbidden declaration in the Coq development', detail='\n'.join(hits[:20]))
@@ -375,6 +385,7 @@ def run_check(cfg, tier, seed, only=None):
     descr = cfg.get('verdicts', {})
     reported_classes = set()
     n_viol_cases = 0
+    total_fail.sort(key=lambda f: (0 if f['verdict'] == 2 else 1 if f['verdict'] >= 10 else 2))
     for f in total_fail:
         v = f['verdict']
         if v >= 10:
@@ -461,6 +472,7 @@ def finish(cfg, res):
         'known_findings_hit': [k[0] for k in res.known],
         'modelled_not_verified': cfg.get('modelled', []),
         'partial': cfg.get('partial', ''),
+        'coqchk': getattr(res, 'coqchk', None),
     }
     ev = {'property_id': pid, 'tier': res.tier, 'seed': res.seed, 'level': 'proof', 'coverage': cov,
           'assumptions': cfg.get('assumptions', []), 'wall_s': round(time.time() - res.t0, 1),
